@@ -60,6 +60,9 @@ func TestVerifC06(t *testing.T) {
 			for i := range op.Calls {
 				redescribe(&op.Calls[i])
 			}
+			if op.Op == "meta" {
+				continue
+			}
 			ops = append(ops, op)
 		}
 		return ops
